@@ -254,3 +254,23 @@ def jobs(tier, seed):
     if tier == "thorough":
         _sharded(jobs, "options", {"cfg": JS, "scaffold": free_doc(3, "\n"), "name": "opts-free"}, weight=12, spec=spec)
     return jobs
+
+
+def thorough_extra(seed):
+    jobs = []
+    spec = {n: dict(NOCR) for n in "abcdefgh"}
+    specnl = {n: dict(NOCRNL) for n in "abcdefgh"}
+    _sharded(jobs, "single", {"cfg": JS, "scaffold": free_doc(3)}, weight=20, spec=spec)
+    _sharded(jobs, "single", {"cfg": CM, "scaffold": free_doc(2)}, weight=8, spec=spec)
+    for name, frag in FRAGMENTS:
+        if name in ("emph", "code", "link", "image", "entity", "escape", "html"):
+            continue
+        for other in ("heading", "list", "quote", "table"):
+            jobs.append({"harness": "contexts", "params": {"cfg": JS, "fragment": frag, "spec": specnl, "name": name, "only": other}, "weight": 6, "path_cap": 120})
+    for si, sc in enumerate(OPT_SCAFFOLDS):
+        sc1 = [("x" if p == H("b") else p) for p in sc]
+        jobs.append({"harness": "options", "params": {"cfg": JS, "scaffold": sc1, "spec": spec, "name": "opts-all"}, "weight": 30, "path_cap": 120})
+    for j in jobs:
+        j["cpu_cap"] = 6000
+        j["wall_cap"] = 7200
+    return jobs
